@@ -5,7 +5,7 @@ from typing import Dict, Optional, List, Tuple
 
 from sympy import Eq, sympify, expand
 from sympy import symbols, simplify, Expr, Add, Mul, Pow, Symbol, Float
-from sympy.core.numbers import Zero, NegativeOne, One, Integer
+from sympy.core.numbers import Zero, NegativeOne, One, Integer, Rational, Half
 from sympy.logic.boolalg import BooleanTrue
 from sympy.parsing.sympy_parser import parse_expr
 
@@ -15,6 +15,8 @@ SYMPY_OP_TO_PDDL_OP = {
     Pow: "^",
     Float: "",
     Integer: "",
+    Rational: "",
+    Half: "",
     Symbol: "",
     Zero: "0",
     NegativeOne: "-1",
@@ -43,6 +45,10 @@ def extract_atom(
     :param should_remove_trailing_zeros: whether to remove trailing zeros or not.
     :return: the PDDL expression.
     """
+    if expression.func in (Rational, Half):
+        # a non-integer rational coefficient (e.g. x / 2) is printed like the equal floating point number.
+        expression = Float(expression)
+
     if expression.func == Float:
         formatted_expression = (
             format(expression, f".{decimal_digits}f")
